@@ -278,6 +278,26 @@ def judge_path(p):
                 if i >= len(got) or not seg_close(got[i], w, F(1, 10**6)): ok = False; break
                 i += 1
         if not ok or i != len(got): out.append((f'{op} keeps every non-arc segment and ends each arc at its end point', want, got))
+        elif op == 'arcs_to_cubics':
+            # geometry: the cubics that replace a proper arc lie on its (radius-corrected) ellipse
+            from props.c12 import cubics_on_arc
+            i = 0
+            for sgm in base:
+                if sgm[0] != 'arc':
+                    i += 1; continue
+                _, st, rx, ry, rot, fa, fs, en = sgm
+                if st == en: continue
+                run_ = []
+                while i < len(got) and got[i][0] in ('cubic', 'line'):
+                    g = got[i]; i += 1
+                    run_.append(g)
+                    if abs(g[-1][0] - en[0]) <= F(1, 10**6) and abs(g[-1][1] - en[1]) <= F(1, 10**6): break
+                if rx == 0 or ry == 0 or any(g[0] != 'cubic' for g in run_): continue
+                fl = lambda pt: (float(pt[0]), float(pt[1]))
+                v = cubics_on_arc(float(st[0]), float(st[1]), float(rx), float(ry), float(rot), int(fa), int(fs), float(en[0]), float(en[1]),
+                                  [(fl(g[2]), fl(g[3]), fl(g[4])) for g in run_])
+                if v:
+                    out.append(('arcs_to_cubics traces each arc: ' + v[0], v[1], v[2])); break
     # rounding moves no coordinate by more than half a unit in the last place
     try:
         for nd in (0, 1):
